@@ -2,12 +2,22 @@
 Lemmas for the payload world.  Names used by Acme.Props.C01World: inv_step, reach_wf,
 reach_fresh, reach_enum_width, reach_keys, step_err_unchanged, step_nopanic, insert_iff,
 setType_iff.
+
+The proofs are split over
+  Acme.Proofs.PayloadBasic  (stores, pointwise view of slotsOf/slotsBe, setStarts/setParents/setBe, regen*)
+  Acme.Proofs.PayloadErr    (step_err_unchanged)
+  Acme.Proofs.PayloadInv    (the invariant in groups InvV / InvS / WFAll / FreshAll, congruences, frames)
+  Acme.Proofs.PayloadMsg, PayloadMsg2  (message operations, insert_iff)
+  Acme.Proofs.PayloadNew    (constructors, sigRename)
+  Acme.Proofs.PayloadVal    (value group: max index arithmetic, valNew, valRename)
+  Acme.Proofs.PayloadSize   (verifySizeAmount / modifySize of one signal)
+  Acme.Proofs.PayloadSig    (sigSetType, sigSetEnum, setType_iff)
+  Acme.Proofs.PayloadRefs   (verifyRefs / modifyRefs / enumModifySize over all referencing signals)
+  Acme.Proofs.PayloadEnum   (enum operations, valSetIndex)
+  Acme.Proofs.PayloadMain   (inv_step, Reach corollaries, step_nopanic)
 -/
 import Acme.Core.Payload
 import Acme.Spec.Payload
 import Acme.Proofs.Layout
 import Acme.Proofs.Bits
-
-namespace Acme.Payload
-
-end Acme.Payload
+import Acme.Proofs.PayloadMain
